@@ -61,9 +61,13 @@ Contains(p, n) == (Bits(n) \div Pow2(W - p[3])) = (p[2] \div Pow2(W - p[3]))
 (* safe search; bs covers blocked services.  vals / svcs are the client's  *)
 (* own values; the spec never looks inside them (in the exhaustive model   *)
 (* they are the tokens "own"; in trace validation they are the real        *)
-(* boolean tuple and service list).                                        *)
+(* boolean tuple and service list).  pause says that the request arrives   *)
+(* inside the pause window of the client's own blocked-services schedule   *)
+(* (a blocked-services list, the global one too, is a list plus a weekly   *)
+(* schedule during which the list is NOT applied).                         *)
 (***************************************************************************)
-NoClient == [name |-> "", ids |-> {}, own |-> FALSE, bs |-> FALSE, vals |-> "", svcs |-> ""]
+NoClient == [name |-> "", ids |-> {}, own |-> FALSE, bs |-> FALSE, vals |-> "", svcs |-> "",
+             pause |-> FALSE]
 
 NamesOf(R) == {c.name : c \in R}
 IdsOf(R)   == UNION {c.ids : c \in R}
@@ -157,12 +161,17 @@ FindSet(R, L, id) ==
       [] OTHER            -> {NoClient}
 
 (***************************************************************************)
-(* Effective settings of a request.  G = [vals, svcs] are the global ones. *)
-(* who is the client the request is attributed to ("" = none).             *)
+(* Effective settings of a request.  G = [vals, svcs, pause] are the       *)
+(* global ones.  who is the client the request is attributed to ("" =      *)
+(* none).  A client that opted out of the global blocked services gets its *)
+(* own list -- and while its own pause is in effect it gets NO services    *)
+(* blocked: neither its own list nor the global one (it opted out of that).*)
 (***************************************************************************)
+Applied(b) == IF b.pause THEN {} ELSE b.svcs
+
 Effective(R, L, G, cid, a) ==
     LET c == Resolve(R, L, cid, a) IN
     [who  |-> c.name,
      vals |-> IF c.own THEN c.vals ELSE G.vals,
-     svcs |-> IF c.bs  THEN c.svcs ELSE G.svcs]
+     svcs |-> IF c.bs  THEN Applied(c) ELSE Applied(G)]
 =============================================================================
